@@ -409,8 +409,8 @@ static const std::vector<StressFam> &stress_fams() {
 		{"switchseq", {8, 33, 1000, 5000}, false},
 		{"designators", {1, 8, 31, 32, 33, 40}, false},
 		{"bracenest", {1, 8, 31, 32, 33, 64}, false},
-		{"parens", {10, 100, 1000}, false},
-		{"blocks", {10, 100, 1000}, false},
+		{"parens", {10, 100, 1000, 3000, 6000, 10000}, false},
+		{"blocks", {10, 100, 1000, 3000, 10000}, false},
 		{"ptrdecl", {1, 64, 1000}, false},
 		{"macroargs", {0, 1, 31, 32, 33, 200}, true},
 		{"macrobody", {1, 63, 64, 65, 1000}, true},
